@@ -70,7 +70,7 @@ pub fn selective(f: Fam) -> bool {
 fn plain_nodes(item: &PItem, comb: u16, n: usize, depth: usize) -> Vec<Node> {
     let nest = item.s("nest");
     let npos = item.u("npos", 0);
-    (0..n)
+    let v: Vec<_> = (0..n)
         .map(|slot| {
             if depth == 0 && !nest.is_empty() && slot == npos {
                 let ifam = fam_of(nest);
@@ -83,7 +83,8 @@ fn plain_nodes(item: &PItem, comb: u16, n: usize, depth: usize) -> Vec<Node> {
                 Node::Leaf(Leaf { id })
             }
         })
-        .collect()
+        .collect();
+    crate::shape_vec(item, v)
 }
 
 fn inner_spec(item: &PItem, slot: usize) -> Spec {
@@ -94,7 +95,7 @@ fn inner_spec(item: &PItem, slot: usize) -> Spec {
 fn try_nodes(item: &PItem, comb: u16, n: usize, depth: usize) -> Vec<TryNode> {
     let nest = item.s("nest");
     let npos = item.u("npos", 0);
-    (0..n)
+    let v: Vec<_> = (0..n)
         .map(|slot| {
             if depth == 0 && !nest.is_empty() && slot == npos {
                 let ifam = fam_of(nest);
@@ -109,7 +110,8 @@ fn try_nodes(item: &PItem, comb: u16, n: usize, depth: usize) -> Vec<TryNode> {
                 TryNode::Leaf(TryLeaf { id })
             }
         })
-        .collect()
+        .collect();
+    crate::shape_vec(item, v)
 }
 
 pub fn build(item: &PItem, fam: Fam, cont: &str, n: usize, comb: u16, depth: usize) -> BoxFut {
